@@ -647,3 +647,144 @@ def r15_4(ctx):
             ctx.ok("the directive marker is located with str::find(TXTPP_HASH)", site=ctx.site(df, marker[0][0]))
         else:
             ctx.violation(["marker-find"], "detect_from no longer locates the marker with a single forward find(TXTPP_HASH)", site=ctx.site(df, 0))
+
+
+@rule("C14", "R14.6", floor=3)
+def r14_6(ctx):
+    """tag store discipline: try_store moves the listening tag into `stored` with the offered content and stops listening;
+    inject_tags removes exactly the tags it substituted"""
+    lib = ctx.lib
+    ts = body(ctx, "tag_try_store")
+    if ts:
+        some_e = enum_edges(ts, lib, "std::option::Option", lambda vs: vs == {"Some"})
+        ins = [(bb, t) for bb, t in calls_to(ts, "std::collections::HashMap::<K, V, S, A>::insert") if has_field(C.trace(ts, t["args"][0]), "stored")]
+        pc = ts.param_index_by_name("content")
+        good = bool(ins)
+        for bb, t in ins:
+            key = C.trace(ts, t["args"][1], through_fields=True)
+            val = C.trace(ts, t["args"][2])
+            if not (has_field(key, "listening") and any(l.kind == "param" and l.data == pc for l in val) and some_e and C.guarded(ts, bb, some_e)):
+                good = False
+        resets = [bb for bb, si, st in ts.stmts() if st["k"] == "assign" and st["lhs"]["p"] and st["lhs"]["p"][-1].get("name") == "listening"
+                  and built_variant(ts, st["rv"]["op"]) == "None"] if ts else []
+        oks = ok_sites(ts)
+        if good and resets and oks and all(C.guarded(ts, o, out_edges(ts, [bb for bb, t in ins])) for o in oks) and \
+                all(C.guarded(ts, o, out_edges(ts, resets)) or o in resets for o in oks):
+            ctx.ok("try_store: stored[listening] = content; listening = None; Ok only after both", site=ctx.site(ts, ins[0][0]))
+        else:
+            ctx.violation(["try_store"], "try_store no longer stores the offered content under the listening tag and stops listening before returning Ok",
+                          site=ctx.site(ts, 0))
+    inj = body(ctx, "tag_inject")
+    if inj:
+        rem = [(bb, t) for bb, t in calls_to(inj, "std::collections::HashMap::<K, V, S, A>::remove") if has_field(C.trace(inj, t["args"][0]), "stored")]
+        pushes_val = [(bb, t) for bb, t in calls_to(inj, "std::string::String::push_str")
+                      if has_call(C.trace(inj, t["args"][1], through_fields=True), ROLE["replace_line_ending"])]
+        key_push = [(bb, t) for bb, t in calls_to(inj, "std::vec::Vec::<T, A>::push")]
+        if rem and pushes_val and key_push:
+            # the key is queued for removal on every path that substituted its value (before the next loop iteration / exit)
+            ok = True
+            for bb, t in pushes_val:
+                nxt = [b2 for b2, t2 in inj.calls() if C.callee_name(t2).endswith("as std::iter::Iterator>::next")]
+                reach = inj.reachable(bb, cut=out_edges(inj, [b2 for b2, t2 in key_push]))
+                if any(n in reach for n in nxt) or any(inj.term(r)["k"] == "return" for r in reach):
+                    ok = False
+            if ok:
+                ctx.ok("inject_tags queues every substituted tag for removal and removes the queued tags", site=ctx.site(inj, rem[0][0]))
+            else:
+                ctx.violation(["used-not-removed"], "a substituted tag is not always removed from the store (it could be substituted again)", site=ctx.site(inj, pushes_val[0][0]))
+        else:
+            ctx.violation(["remove-missing"], "inject_tags no longer removes used tags from the store", site=ctx.site(inj, 0))
+        # first occurrence only: positions come from str::find (not rfind / match_indices)
+        cl_finds = []
+        for b2 in [inj] + lib.closures_of(inj):
+            cl_finds += [C.callee_name(t) for bb, t in b2.calls() if re.search(r"::(find|rfind|match_indices|rmatch_indices|matches|split)$", C.callee_name(t))]
+        if cl_finds == ["std::str::<impl str>::find"]:
+            ctx.ok("tag positions come from a single forward str::find per tag", site=ctx.site(inj, 0))
+        else:
+            ctx.violation(["tag-search", ",".join(cl_finds)], "tag occurrences are located with %s (first occurrence via find documented)" % cl_finds, site=ctx.site(inj, 0))
+
+
+@rule("C15", "R15.5", floor=4)
+def r15_5(ctx):
+    """add_line: the three documented continuation forms, each behind the leading-whitespace match; arguments are right-trimmed"""
+    lib = ctx.lib
+    al = body(ctx, "add_line")
+    if not al:
+        return
+    SW = "std::str::<impl str>::starts_with"
+    ws_true = bool_call_edges(al, lib, SW, True, arg_pred=lambda t: has_field(C.trace(al, t["args"][1], through_fields=True), "whitespaces"))
+    pushes = calls_to(al, "std::vec::Vec::<T, A>::push")
+    if not ws_true:
+        ctx.violation(["whitespace-match"], "add_line no longer requires the continuation line to start with the directive's leading whitespace", site=ctx.site(al, 0))
+        return
+    for bb, t in pushes:
+        if C.guarded(al, bb, ws_true):
+            ctx.ok("continuation accepted only behind starts_with(whitespaces)", site=ctx.site(al, bb))
+        else:
+            ctx.violation(["push-without-whitespace"], "a continuation line is accepted without matching the leading whitespace", site=ctx.site(al, bb))
+    forms = set()
+    for bb, t in al.calls():
+        nm = C.callee_name(t)
+        if nm == SW:
+            lv = C.trace(al, t["args"][1], through_fields=True)
+            if has_field(lv, "prefix") and not has_call(lv, "std::str::<impl str>::repeat"):
+                forms.add("same-prefix")
+            for l in lv:
+                if l.kind == "call" and C.callee_name(l.data) == "std::str::<impl str>::repeat":
+                    unit = {C.op_const(x.data) for x in C.trace(al, l.data["args"][0]) if x.kind == "const"}
+                    n = C.trace(al, l.data["args"][1])
+                    if unit == {'" "'} and any(x.kind == "call" and C.callee_name(x.data).endswith("::len") and
+                                               has_field(C.trace(al, x.data["args"][0], through_fields=True), "prefix") for x in n):
+                        forms.add("spaces-of-prefix-length")
+        if nm.endswith("::eq") and len(t["args"]) == 2:
+            for a in t["args"]:
+                lv = C.trace(al, a, through_fields=True)
+                if any(l.kind == "call" and C.callee_name(l.data) == "std::str::<impl str>::trim_end_matches" and
+                       has_field(C.trace(al, l.data["args"][0], through_fields=True), "prefix") for l in lv):
+                    forms.add("prefix-without-trailing-whitespace")
+    want = {"same-prefix", "spaces-of-prefix-length", "prefix-without-trailing-whitespace"}
+    if forms == want:
+        ctx.ok("the three continuation forms are tested: %s" % sorted(forms), site=ctx.site(al, 0))
+    else:
+        ctx.violation(["forms", ",".join(sorted(want - forms))], "continuation form(s) %s no longer recognised by add_line" % sorted(want - forms), site=ctx.site(al, 0))
+    # the appended argument is right-trimmed (or the empty string for the bare-prefix form)
+    for bb, t in pushes:
+        lv = C.trace(al, t["args"][1])
+        ok = any((l.kind == "call" and C.callee_name(l.data) in ("std::str::<impl str>::trim_end_matches", "std::str::<impl str>::trim_end")) or
+                 (l.kind == "const" and C.op_const(l.data) == '""') for l in lv)
+        if ok:
+            ctx.ok("appended argument is right-trimmed / empty", site=ctx.site(al, bb))
+        else:
+            ctx.violation(["no-right-trim"], "a continuation argument is appended without right-trimming", site=ctx.site(al, bb))
+
+
+@rule("C11", "R11.6", floor=2)
+def r11_6(ctx):
+    """the extension constant and the functions that test / strip it"""
+    lib = ctx.lib
+    c = lib.consts.get("txtpp::fs::path::abs_path::TXTPP_EXT")
+    if c and c["value"] == '"txtpp"':
+        ctx.ok("TXTPP_EXT == \"txtpp\"")
+    else:
+        ctx.violation(["ext-const"], "the source extension constant is %s, documented \"txtpp\"" % (c["value"] if c else None))
+    it = body(ctx, "is_txtpp_file")
+    if it:
+        cmps = 0
+        for bb, t in it.calls():
+            if C.callee_name(t).endswith("::eq"):
+                for a in t["args"]:
+                    if any(l.kind == "const" and (l.data.get("named", "").endswith("TXTPP_EXT") or C.op_const(l.data) == '"txtpp"') for l in C.trace(it, a)):
+                        cmps += 1
+        if cmps >= 2 and calls_to(it, "std::path::Path::extension"):
+            ctx.ok("is_txtpp_file compares the last and the second-to-last extension with TXTPP_EXT", site=ctx.site(it, 0))
+        else:
+            ctx.violation(["is_txtpp_file"], "is_txtpp_file no longer compares both the last and the second-to-last extension with TXTPP_EXT (%d comparisons)" % cmps,
+                          site=ctx.site(it, 0))
+    rt = body(ctx, "remove_txtpp")
+    if rt:
+        g = bool_call_edges(rt, lib, ROLE["is_txtpp_file"], True)
+        oks = ok_sites(rt)
+        if g and oks and all(C.guarded(rt, o, g) for o in oks):
+            ctx.ok("remove_txtpp returns Ok only for a path that is_txtpp_file()", site=ctx.site(rt, oks[0]))
+        else:
+            ctx.violation(["remove_txtpp-guard"], "remove_txtpp can return an output name for a path that is not a .txtpp source", site=ctx.site(rt, 0))
